@@ -6,6 +6,7 @@ Import ListNotations.
 Record case := {
   c_cmd : N;                  (* 0 vrps, 1 validate, 2 update, 3 server *)
   c_outcomes : list outcome;  (* outcome of run 0, 1, ...; the last one repeats for ever *)
+  c_sanitize_ok : bool;       (* Engine::sanitize succeeds (false: a truncated RRDP archive was planted in the cache) *)
   i_ended : bool; i_runs : N; i_exit_ok : bool }.
 
 Definition stream_of (l : list outcome) : stream := fun n => nth n l (last l Ok).
@@ -28,9 +29,9 @@ Definition spec_okb (c : case) : bool :=
 
 Definition model_exit (c : case) : exit :=
   let st := stream_of (c_outcomes c) in
-  if (c_cmd c =? 0)%N then vrps true (fun _ => true) st 50 0 false
+  if (c_cmd c =? 0)%N then vrps true (fun _ => c_sanitize_ok c) st 50 0 false
   else if (c_cmd c <? 3)%N then one_shot st
-  else server (fun _ => true) st 50 0 true true.
+  else server (fun _ => c_sanitize_ok c) st 50 0 true true.
 
 Definition model_agrees (c : case) : bool :=
   match model_exit c with
